@@ -74,6 +74,9 @@ pub fn profile_for(prop: &str, _tier: &str) -> Profile {
         "C06" | "C07" => {
             p.w_macro = [0, 14, 3, 1, 2, 0, 1, 0, 0, 0, 0];
             p.macro_pct = 25;
+            if prop == "C07" {
+                p.feed_real_pct = 30;
+            }
         }
         "C11" => {
             p.w_macro = [0, 2, 14, 0, 0, 0, 3, 0, 2, 0, 0];
@@ -85,12 +88,14 @@ pub fn profile_for(prop: &str, _tier: &str) -> Profile {
 }
 
 fn default_budget(prop: &str, tier: &str) -> u64 {
+    // steps per shard (16 shards): quick ~ 10-20 s, thorough ~ 30x
     let quick = match prop {
-        "C08" => 6000,
-        _ => 5000,
+        "C08" => 30000,
+        "C13" => 20000,
+        _ => 25000,
     };
     if tier == "thorough" {
-        quick * 25
+        quick * 30
     } else {
         quick
     }
@@ -213,7 +218,13 @@ pub fn replay(a: &Args, v: &Value, report: &mut Report, stats: &mut RunStats) {
         for o in ops {
             let op: Op = serde_json::from_value(o["op"].clone()).expect("op");
             let armed: Option<u32> = o["armed"].as_u64().map(|x| x as u32);
-            h.step_armed(op, armed, report);
+            let st = h.step_armed(op, armed, report);
+            if std::env::var("PERPMON_TRACE").is_ok() {
+                eprintln!("step {} {} ok={} err={:?} tree={:?} bad_debt_pre={} vault_pre={}", st.seq, st.op.kind(), st.out.ok, st.out.err, st.out.msg_tree, st.pre.eng.bad_debt, st.pre.bal(h.w.engine.as_str()));
+                if !st.out.ok || std::env::var("PERPMON_TRACE").map(|v| v == "2").unwrap_or(false) {
+                    eprintln!("   transfers={:?}", st.out.transfers);
+                }
+            }
         }
     }
     h.finish(report);
